@@ -74,6 +74,12 @@ def contract(cell, ir):
     src = {}
     if field in ("typ", "doc", "default"):
         src = ir["params"].get(what.split(".")[0], {})
+        if doc_class in ("whether", "number", "listof", "embedded-default"):
+            # for the trigger-word family the position of the parameter matters (the ReST parser re-reads the default of the
+            # last parameter only): keep it in the class so that a drift at a new position is a new class
+            names_ = list(ir["params"])
+            pname = what.split(".")[0]
+            doc_class += "@last" if names_ and names_[-1] == pname else "@notlast"
     if not src and any(len(p.get("typ") or "") > 85 for p in ir["params"].values()):
         # failures not tied to one parameter (names, returns, doc) on an interface with a type the word-wrapper breaks
         return [(("fixpoint", fmt if fmt != "sqlalchemy" else variant, style, "default_doc=%s" % edd, "doc:" + doc_class, field, "wrapped-type", "-"),
